@@ -635,8 +635,52 @@ def twins_from_shared_arguments(ctx, g, rng, judge_pair):
         aux.pop("later", None)
 
 
+def defaults_are_independent(ctx, g):
+    """DEFAULTS: two nodes constructed with everything omitted are two nodes.  Every mutable thing the first one holds is edited IN
+    PLACE (its flags, its tables, its collections, its bytes); the second one, and a third constructed afterwards, still compare equal
+    -- both ways -- to a node constructed with every default spelled out, and differ from the first wherever a compared field was
+    edited."""
+    import uuid as uuidlib
+    U = uuidlib.UUID(int=77)
+    F = g.Section.Flag if hasattr(g.Section, "Flag") else g.SectionFlag
+    cases = [
+        ("Section", lambda: g.Section(uuid=U), lambda: g.Section(name="", byte_intervals=(), flags=set(), uuid=U),
+         [("flags.add", lambda x: x.flags.add(list(F)[0]), True)]),
+        ("Module", lambda: g.Module(name="m", uuid=U), lambda: g.Module(name="m", uuid=U, aux_data={}, sections=(), symbols=(), proxies=()),
+         [("aux_data[k] = table", lambda x: x.aux_data.__setitem__("k", g.AuxData(1, "uint8_t")), True)]),
+        ("IR", lambda: g.IR(uuid=U), lambda: g.IR(uuid=U, modules=(), aux_data={}, cfg=()),
+         [("aux_data[k] = table", lambda x: x.aux_data.__setitem__("k", g.AuxData(1, "uint8_t")), True),
+          ("cfg.add", lambda x: x.cfg.add(g.Edge(g.ProxyBlock(uuid=uuidlib.UUID(int=5)), g.ProxyBlock(uuid=uuidlib.UUID(int=6)))), True)]),
+        ("ByteInterval", lambda: g.ByteInterval(uuid=U), lambda: g.ByteInterval(uuid=U, address=None, size=None, contents=b"", blocks=(), symbolic_expressions={}),
+         [("symbolic_expressions[0] = e", lambda x: x.symbolic_expressions.__setitem__(0, g.SymAddrConst(0, g.Symbol("y", uuid=uuidlib.UUID(int=9)))), True),
+          ("contents.extend", lambda x: x.contents.extend(b"ab"), True)]),
+        ("Symbol", lambda: g.Symbol("y", uuid=U), lambda: g.Symbol("y", uuid=U, payload=None, at_end=False), []),
+    ]
+    for cname, mk, mk_explicit, edits in cases:
+        for ename, edit, compared in edits or [("nothing", lambda x: None, False)]:
+            ctx.count("independent_default_cases")
+            ctx.case("defaults:%s:%s" % (cname, ename), True)
+            try:
+                a, b = mk(), mk()
+                edit(a)
+                c = mk()
+                ref = mk_explicit()
+                for nm, x in (("a second node built with the same omissions", b), ("a node built afterwards", c)):
+                    if not (x.deep_eq(ref) and ref.deep_eq(x)):
+                        ctx.add("oracle", "deep_eq-wrong:defaults", "%s with its arguments omitted, after %s on ANOTHER such node: %s no longer compares equal to one built with every default spelled out"
+                                % (cname, ename, nm), {"class": cname, "edit": ename})
+                        break
+                    if compared and (x.deep_eq(a) or a.deep_eq(x)):
+                        ctx.add("oracle", "deep_eq-wrong:defaults", "%s with its arguments omitted: after %s on one node, %s still compares equal to it (the edit reached both, or is not seen)"
+                                % (cname, ename, nm), {"class": cname, "edit": ename})
+                        break
+            except Exception as e:  # noqa: BLE001
+                ctx.add("oracle", "deep_eq-wrong:defaults", "%s with its arguments omitted, %s: %s" % (cname, ename, exc_name(g, e)), {"class": cname, "edit": ename})
+
+
 def run(ctx):
     g = gtirb_from_repo.load()
+    defaults_are_independent(ctx, g)
     cov = irgen.Cov(ctx)
     n = 40 if ctx.quick else 1200
     per_ir = 6 if ctx.quick else 10
